@@ -31,7 +31,7 @@ func seedPrograms() [][]Step {
 		{ins(1, 0, 1, 10), Step{0, Op{K: KBeginRO}}, sel(0, 0), b(1), ins(1, 0, 2, 20), ins(1, 2, 2, 20), k(1, KCommit), sel(0, 0), sel(0, 2), k(0, KRollback)},
 		// the same in a read-write transaction (tb is snapshotted at BEGIN, ta lazily)
 		{b(0), ins(1, 0, 1, 10), auto(1, 7), sel(0, 0), sel(0, 1), k(0, KCommit)},
-		// INSERT after own DELETE of the same key
+		// INSERT after own DELETE of the same key (fixed by 62a15b5: must succeed)
 		{ins(0, 0, 1, 10), b(0), del(0, 0, 1), sel(0, 0), ins(0, 0, 1, 11), sel(0, 0), k(0, KCommit)},
 		// DELETE then UPSERT then INSERT elsewhere, concurrent unrelated commit
 		{ins(0, 0, 1, 10), b(0), del(0, 0, 1), Step{0, Op{K: KUps, T: 0, Pk: 1, V: 12}}, ins(1, 0, 9, 90), k(0, KCommit), sel(1, 0)},
@@ -420,7 +420,7 @@ func record(r *vk.Run, res result, origin string, maxKnown map[string]int) {
 	}
 	for _, f := range or.findings {
 		isKnown := false
-		for _, c := range []string{causeRbTo, causeLazy, causeGet} {
+		for _, c := range []string{causeRbTo, causeLazy} {
 			if len(f) >= len(c) && f[:len(c)] == c {
 				isKnown = true
 				if maxKnown[c] >= 2 {
